@@ -148,6 +148,7 @@ class Env:
         self.names_used = {}
         self.cancel_calls = {}    # task instance name -> [(time, token, status at call, n)]
         self.await_results = {}   # task instance name -> [(awaiter, kind, ident)]
+        self.awaiting = {}        # key -> (awaiter, task instance name, task, since): in `await task`
         self.refused = []         # (coroutine weakref, name) of payloads refused by do()
         self.task_names = {}      # id(task) -> instance name
         self.task_inst = {}       # instance name -> Task
@@ -890,8 +891,13 @@ async def op_await_task(env, ctx, step):
         return 'notask'
     name = env.task_names.get(id(task))
     record = env.await_results.setdefault(name, [])
+    key = object()
+    env.awaiting[key] = (ctx.name, name, task, env.sess.now())
     try:
-        value = await task
+        try:
+            value = await task
+        finally:
+            del env.awaiting[key]
     except (TaskCancelled, TaskClosed) as exc:
         record.append((ctx.name, 'TaskCancelled' if isinstance(exc, TaskCancelled)
                        else 'TaskClosed', id(exc), env.sess.now(),
@@ -1075,6 +1081,15 @@ class LifecycleMonitor:
     def step_end(self, sess, loop, prev_time):
         env = self.env
         self.sample(sess)
+        for awaiter, name, task, since in list(env.awaiting.values()):
+            sess.stats['c06_pending_awaits_checked'] += 1
+            if task.done and sess.armed:
+                # whoever waits for a task is woken in the time step in which it is done
+                sess.violation(
+                    'c06:awaiter-not-woken',
+                    '%s has been awaiting task %s since %r; the task is %s at the end of time '
+                    'step %r but the awaiter has not been resumed' % (
+                        awaiter, name, since, self.status(task), prev_time))
         for name, calls in env.cancel_calls.items():
             task = env.task_inst.get(name)
             if task is None:
